@@ -17,7 +17,7 @@ import time
 from concurrent.futures import ThreadPoolExecutor
 
 VERIF = os.path.dirname(os.path.dirname(os.path.abspath(__file__)))
-SCRATCH = os.environ.get('VERIF_SCRATCH', '/tmp/furax-verif-replay')
+SCRATCH = os.environ.get('VERIF_SCRATCH', f'/tmp/furax-verif-replay-{os.getpid()}')   # one scratch area per invocation
 SEEDS = '0'
 
 
@@ -81,6 +81,7 @@ def main() -> int:
         name = 'REPLAY.json' if SEEDS == '0' else f'REPLAY-seed{SEEDS.replace(",", "_")}.json'
         json.dump(summary, open(os.path.join(VERIF, 'seeded', name), 'w'), indent=1)
     print(json.dumps({k: v for k, v in summary.items() if k != 'results'}))
+    shutil.rmtree(SCRATCH, ignore_errors=True)
     return 0
 
 
